@@ -79,6 +79,7 @@ Theorem C05_wake_kick_force_law :
     suppQ r a bb ->
     row_fits n it ow a bb ->
     row_fits n it orf (a - shift_hi n it ow) (bb - shift_lo n it ow) ->
+    rnd32 (xc - Qcz x)%Qc = (xc - Qcz x)%Qc ->
     rnd32 (t * (xc - Qcz x))%Qc = (t * (xc - Qcz x))%Qc ->
     rnd32 (Qcz (n / 2) + wp x)%Qc = (Qcz (n / 2) + wp x)%Qc ->
     rnd32 (Qcz (n / 2) + t * (xc - Qcz x))%Qc = (Qcz (n / 2) + t * (xc - Qcz x))%Qc ->
@@ -95,6 +96,7 @@ Example C05_force_law_hypotheses :
   let orf := rf_offsets 12 ex_t ex_xc 4 in
   row_fits 12 4 ow 5 7 /\
   row_fits 12 4 orf (5 - shift_hi 12 4 ow) (7 - shift_lo 12 4 ow) /\
+  rnd32 (ex_xc - Qcz 4)%Qc = (ex_xc - Qcz 4)%Qc /\
   rnd32 (ex_t * (ex_xc - Qcz 4))%Qc = (ex_t * (ex_xc - Qcz 4))%Qc /\
   rnd32 (Qcz (12 / 2) + ex_wp 4)%Qc = (Qcz (12 / 2) + ex_wp 4)%Qc /\
   rnd32 (Qcz (12 / 2) + ex_t * (ex_xc - Qcz 4))%Qc = (Qcz (12 / 2) + ex_t * (ex_xc - Qcz 4))%Qc.
